@@ -295,14 +295,20 @@ def impl_fast(case, scratch: Path) -> tuple[dict, bool]:
     a, b = upd(), outp()
     det = a == upd() and b == outp()
     # D16 match rule, on the code's own formatted template: its last component is empty, "." or ".."
-    rule = False
+    return {"input": a, "output": b, "det": det}, d16_rule_on_code(task, fld)
+
+
+def d16_rule_on_code(task, fld) -> bool:
+    """D16 match rule evaluated on the code's own formatted template: its last component is empty, "." or ".."."""
+    from pydra.compose.shell import templating as T
+    from pydra.utils.general import attrs_values
+
     try:
         v = T._template_formatting(fld, task, attrs_values(task))
         vs = v if isinstance(v, list) else ([] if v is None else [v])
-        rule = any(Path(x).name in ("", "..") for x in vs)
+        return any(Path(x).name in ("", "..") for x in vs)
     except Exception:
-        pass
-    return {"input": a, "output": b, "det": det}, rule
+        return False
 
 
 def _out_obs(cd, value) -> dict:
@@ -313,14 +319,19 @@ def _out_obs(cd, value) -> dict:
     return {"paths": sorted({rel_to(cd, v) for v in vs})}  # equal entries of a MultiOutputFile list are collected once
 
 
+CODE_RULE: dict = {}
+
+
 def impl_full(case, scratch: Path) -> tuple[dict, str | None]:
     """A whole task run with the executor intercepted: Job.inputs['out'], the argv, the collected output.
     Returns (observable, job directory or None when the executor was never reached)."""
     rec: dict = {}
     try:
-        task, _ = _build(case, scratch)
+        task, fld = _build(case, scratch)
     except Exception as e:
         return {"build": core.exc_tag(e)}, None
+    # kept out of the compared observation; used only when the model does not cover the case (e.g. a list in a format)
+    CODE_RULE[id(case)] = d16_rule_on_code(task, fld)
     res = {}
     with recording_executor(rec):
         try:
@@ -444,6 +455,10 @@ def ext_clause_ok(case, impl) -> bool:
             continue
         if o["p"].endswith("." + ext) != bool(case["keep"]):
             return False
+        # dropping means dropping ALL of `.ext` (which may itself be multi-part, `.nii.gz`): neither the template nor the
+        # stem contains a dot here, so no dot may be left in the resolved name (seeded change C26r3: `Path.stem`)
+        if not case["keep"] and "." in o["p"].rsplit("/", 1)[-1]:
+            return False
     return True
 
 
@@ -519,6 +534,9 @@ def run_full(ctx, cases):
         elif a is not None and model_covers(c):
             m = model_obs(cd, a["out"])
             rule = not a["tailOK"] and c["given"]["kind"] == "template"
+            if a["out"].get("kind") == "error" and str(a["out"].get("err", "")).startswith("unmodelled"):
+                # the model has no formatted template for this case: D16's match rule is read off the code's own
+                rule = CODE_RULE.get(id(c), False) and c["given"]["kind"] == "template"
             if m is not None and m["kind"] != "error":
                 ps = paths_of(m)
                 model = {"job_input": m, "argv_has": sorted(set(p for p in ps if not p.startswith("ABS:")))}
